@@ -49,6 +49,15 @@ P = {
  "C18": ("ordering-set abstract evaluation of the operator table, registry check of the function map, edge guards and must-pass-through in the check routine, decision table of side effects, typestate (no self-loops)",
          "All eight operators bound; each comparison operator's constructed predicate is true on exactly the standard subset of {<,=,>} (followed through helper constructors, not(), || closures, type switches); and/or short-circuit folds; the three metric functions bound to the same-named metrics methods with arguments in order and milliseconds; trip iff condition true, evaluated only past a re-test of the check period under the exclusive lock with lastCheck advanced; metrics.Reset() after every trip; record-then-check after every served response; side effects launched only from the state setter on their own state, one goroutine, one Exec, nil-guarded, no self-loop transitions. Level 'other'.",
          "NOT decided: numerical values of ratios/quantiles; expression parsing (vulcand/predicate, trusted). Trusted: go/ssa, analyser.", "3/C18"),
+ "C06": ("value provenance over the retry loop's phis, field-store audit of the copy routine, must-pass-through with edge deletion (rewind), edge guard (buffering)",
+         "Every attempt's request is a copy made in that iteration from the ORIGINAL request, the buffered body and its Size(); the copy routine unconditionally sets a copied URL, a fresh header map, ContentLength=size, empty TransferEncoding, Body=buffered reader, and stores nothing into the original; Seek(0,0) on the buffered body is passed before every re-invocation; the first attempt lies on multibuf.New(req.Body)'s success edge. Level 'other'.",
+         "NOT decided: byte equality of what multibuf returns, spill-threshold arithmetic (dependency, trusted). Trusted: go/ssa, analyser.", "3/C06"),
+ "C07": ("event counting over all CFG paths, loop-carried-value detection on phis, use-after-mapping path rule, counter/guard normal form for the bound, ordering-set evaluation of the operator tables (buffer + stream)",
+         "Recorder never touches the client writer, is fresh per attempt, relayed status/body are this attempt's; exactly one emission on every non-hijacked path and none after it, relay in order headers/status/body; the recorded status is zero-mapped to 200 before any use (relay and retry context); Reader() only on a bytes-written>0 edge; counter init i0, +1 per back edge, back edge only on counter<=K with K-i0+2<=11, Attempts()=invocations so far, no retry with nil predicate; operator tables have the standard ordering sets and the four functions are bound to attempt/status/method/{502,504}. Level 'other'.",
+         "NOT decided: byte equality of the relayed body (io.Copy/multibuf), expression parsing (vulcand/predicate). Trusted: go/ssa, analyser.", "3/C07"),
+ "C15": ("edge guards, option provenance, defer/ordering path rules, dependency SSA reachability (os.Remove), decision table of the size handler",
+         "Handler only on the nil edge of the declared-length check and the success edge of multibuf.New(MaxBytes(maxRequestBodyBytes)); the check refuses ContentLength>max with MaxSizeReachedError -> 413; response writer limited by MaxBytes(maxResponseBodyBytes), write error recorded, relay only on writeError==nil; (from the dependency's SSA) only closing a reader removes the spill file, so a release routine that takes and closes the reader is deferred after the writer's creation, before the handler, in every iteration, and every reader taken has its Close deferred at once; request buffer closed by a deferred call. Level 'other'.",
+         "NOT decided: threshold arithmetic inside multibuf. Trusted: go/ssa, analyser, os/ioutil.", "3/C15"),
 }
 
 NA = {}
